@@ -78,6 +78,15 @@ def run_shards(bindir, cases, wd, tag, stride, nshards, timeout):
             rest = chunk[len(done) + 1:]
             if not rest:
                 break
+            # a change that makes a parser spin hangs on many inputs: three attributed hangs are a verdict, the rest of the
+            # exploration would only cost one time limit per further input
+            if sum(1 for d, _ in incidents if d == "hang") >= 3:
+                for q in procs:
+                    if q[0].poll() is None:
+                        q[0].kill()
+                        q[0].wait()
+                return results, incidents
+            timeout = min(timeout, 30)
             chunk = rest
             with open(cp, "w") as f:
                 for c in rest:
@@ -104,7 +113,7 @@ def run(prop, tier, seed, replay=None):
     for profile in ("dev", "release"):
         bindir = C.build_harness(profile, bins=["totaldrv"])
         t0 = time.time()
-        results, incidents = run_shards(bindir, cases, wd, profile, stride, nshards=min(12, C.NCPU), timeout=900)
+        results, incidents = run_shards(bindir, cases, wd, profile, stride, nshards=min(12, C.NCPU), timeout=60)   # an unchanged tree needs 2 - 4 s
         n = sum(r["n"] for r in results)
         evaluations += n
         C.log("[C03] %s profile: %d abstract cases, %d concrete inputs in %.1fs, %d died/hung" %
